@@ -196,6 +196,124 @@ theorem C03_roundtrip (srcs : List (Bytes × Desc)) (fmt16 : Bytes)
         rw [ht] at this
         exact this
 
+/-! ## names come out in case-insensitive order -/
+
+/-- `std::sort` orders the *file names* (with extension).  When stripping the extension does not change how two of the
+    given paths compare (true for the property's alphabet: stems of letters, digits, underscores — all above '.' —
+    see `C03_order_compatible_example`), the listed names are strictly increasing in the case-insensitive order. -/
+theorem C03_names_sorted (srcs : List (Bytes × Desc))
+    (hcompat : ∀ s ∈ srcs, ∀ t ∈ srcs, Str.ltCI (Path.getFilename t.1) (Path.getFilename s.1) = false →
+      Str.ltCI (nameOf t.1) (nameOf s.1) = false)
+    (hdistinct : Str.NoDupCI (fun s : Bytes × Desc => nameOf s.1) srcs) :
+    Str.SortedS (fun s : Bytes × Desc => nameOf s.1) (sortedSrcs srcs) := by
+  have hperm : (sortedSrcs srcs).Perm srcs := Str.sortCI_perm _ srcs
+  have hsw : Str.SortedW (fun s : Bytes × Desc => nameOf s.1) (sortedSrcs srcs) := by
+    have := Str.sortCI_sorted (fun s : Bytes × Desc => Path.getFilename s.1) srcs
+    unfold Str.SortedW at this ⊢
+    exact this.imp_of_mem (fun {s t} hs ht h => hcompat s (hperm.mem_iff.mp hs) t (hperm.mem_iff.mp ht) h)
+  exact hsw.strict _ (hdistinct.perm _ hperm.symm)
+
+/-! ## refusals -/
+
+/-- a file that does not start with `RIFF`, or does not carry `WAVE` at offset 8 (or is shorter than 12 bytes), fails intake -/
+theorem C03_not_wave_fails_intake (c : Content)
+    (h : c.len < 12 ∨ c.toBytes.take 4 ≠ tagRIFF ∨ (c.toBytes.drop 8).take 4 ≠ tagWAVE) : ∀ i, intake c ≠ .ok i := by
+  intro i hi
+  have hok := (intake_ok hi).1
+  unfold headerOk at hok
+  simp only [Bool.and_eq_true, decide_eq_true_eq, beq_iff_eq] at hok
+  obtain ⟨⟨⟨h12, hr⟩, hw⟩, _⟩ := hok
+  rw [Content.read_eq] at hr hw
+  unfold riffHeaderSize at h12 hr hw
+  rcases h with h | h | h
+  · omega
+  · apply h
+    rw [← hr, List.drop_zero, List.take_take]; rfl
+  · apply h
+    rw [← hw, List.drop_zero, List.drop_take]
+
+/-- **refusals**: a set is refused with an error (never an archive, never a hang) when one of its files is not RIFF/WAVE,
+    when two of its files carry different formats, when a name is longer than 8 characters, or when two names that come
+    out next to each other are equal ignoring case -/
+theorem C03_refusals (files : List (Bytes × Content)) (hlen : ∀ f ∈ files, f.2.len < 2 ^ 63) :
+    ((∃ f ∈ files, f.2.len < 12 ∨ f.2.toBytes.take 4 ≠ tagRIFF ∨ (f.2.toBytes.drop 8).take 4 ≠ tagWAVE) → create files = .err) ∧
+    ((∃ f ∈ files, ∃ g ∈ files, ∃ i j, intake f.2 = .ok i ∧ intake g.2 = .ok j ∧ i.fmt ≠ j.fmt) → create files = .err) ∧
+    ((∃ f ∈ files, (nameOf f.1).length > nameMax) → create files = .err) ∧
+    (Str.hasAdjacentDup (namesOf files) = true → create files = .err) := by
+  refine ⟨?_, ?_, ?_, ?_⟩ <;> intro h <;> apply create_err_of_not_ok files hlen <;> intro a ha <;>
+    obtain ⟨infos, idx, hc⟩ := (create_ok_iff files a).mp ha
+  · obtain ⟨f, hf, hbad⟩ := h
+    obtain ⟨i, _, hi⟩ := hc.intake_each f hf
+    exact C03_not_wave_fails_intake f.2 hbad i hi
+  · obtain ⟨f, hf, g, hg, i, j, hi, hj, hne⟩ := h
+    obtain ⟨i', hi'm, hi'⟩ := hc.intake_each f hf
+    obtain ⟨j', hj'm, hj'⟩ := hc.intake_each g hg
+    rw [hi] at hi'; rw [hj] at hj'
+    injection hi' with hi'; injection hj' with hj'
+    subst hi' hj'
+    exact hne ((allSameFmt_iff infos).mp hc.2.1 i hi'm j hj'm)
+  · obtain ⟨f, hf, hl⟩ := h
+    have := hc.2.2.1 (nameOf f.1) (List.mem_map.mpr ⟨f, mem_sorted.mpr hf, rfl⟩)
+    omega
+  · rw [hc.2.2.2.1] at h; cases h
+
+/-- duplicates are always next to each other — hence always refused — when the sort by file name also orders the names -/
+theorem C03_duplicates_refused (files : List (Bytes × Content)) (hlen : ∀ f ∈ files, f.2.len < 2 ^ 63)
+    (hcompat : ∀ s ∈ files, ∀ t ∈ files, Str.ltCI (Path.getFilename t.1) (Path.getFilename s.1) = false →
+      Str.ltCI (nameOf t.1) (nameOf s.1) = false)
+    (hdup : ¬ Str.NoDupCI (fun f : Bytes × Content => nameOf f.1) files) : create files = .err := by
+  apply (C03_refusals files hlen).2.2.2
+  have hperm : (sorted files).Perm files := Str.sortCI_perm _ files
+  have hsw : Str.SortedW id (namesOf files) := by
+    have := Str.sortCI_sorted (fun f : Bytes × Content => Path.getFilename f.1) files
+    unfold Str.SortedW at this ⊢
+    rw [List.pairwise_map]
+    exact this.imp_of_mem (fun {s t} hs ht h => hcompat s (hperm.mem_iff.mp hs) t (hperm.mem_iff.mp ht) h)
+  apply Str.hasAdjacentDup_complete _ hsw
+  intro hn
+  apply hdup
+  unfold Str.NoDupCI at hn ⊢
+  rw [List.pairwise_map] at hn
+  exact (Str.NoDupCI.perm (fun f : Bytes × Content => nameOf f.1) hn hperm)
+
+/-! ## non-vacuity: a concrete set meets every hypothesis, and the model's bytes are the reference encoder's -/
+
+def exFmt : Bytes := [1, 0, 1, 0, 0x22, 0x56, 0, 0, 0x44, 0xac, 0, 0, 2, 0, 16, 0]
+/-- `b.wav` (minimal), `A_1.WAV` (a LIST chunk before `fmt `, an 18-byte `fmt `, a `fact` chunk between, a LIST chunk
+    after the data), `a.wav` (empty data) — given out of order -/
+def exSrcs : List (Bytes × Desc) :=
+  [ ([98, 46, 119, 97, 118], ⟨[], exFmt, [], [], [66, 66, 66, 66], []⟩),
+    ([65, 95, 49, 46, 87, 65, 86],
+      ⟨[⟨[76, 73, 83, 84], [1, 2]⟩], exFmt, [0, 0], [⟨[102, 97, 99, 116], [4, 0, 0, 0]⟩], [65, 65, 65, 65, 65],
+       [76, 73, 83, 84, 2, 0, 0, 0, 9, 9]⟩),
+    ([97, 46, 119, 97, 118], ⟨[], exFmt, [], [], [], []⟩) ]
+
+instance (d : Desc) : Decidable d.Valid := by unfold Desc.Valid; exact inferInstance
+
+example : (∀ s ∈ exSrcs, s.2.Valid) ∧ (∀ s ∈ exSrcs, s.2.fmt16 = exFmt) ∧
+    (∀ s ∈ exSrcs, (nameOf s.1).length ≤ nameMax ∧ ∀ x ∈ nameOf s.1, x ≠ 0) ∧
+    headerSize + exSrcs.length * entrySize + (exSrcs.map (·.2.data.length)).sum ≤ offsetLimit ∧
+    exSrcs.length * 16 ≤ allocCap := by decide
+example : Str.NoDupCI (fun s : Bytes × Desc => nameOf s.1) exSrcs := by unfold Str.NoDupCI; decide
+/-- the order-compatibility hypothesis of `C03_names_sorted` holds on this set … -/
+theorem C03_order_compatible_example : ∀ s ∈ exSrcs, ∀ t ∈ exSrcs,
+    Str.ltCI (Path.getFilename t.1) (Path.getFilename s.1) = false → Str.ltCI (nameOf t.1) (nameOf s.1) = false := by decide
+/-- … and the names come out as `a`, `A_1`, `b` -/
+example : (sortedSrcs exSrcs).map (fun s => nameOf s.1) = [[97], [65, 95, 49], [98]] := by decide
+
+def exWav : Desc := ⟨[], exFmt, [], [], [66, 66, 66, 66], []⟩
+def bytesOf? : Res Archive → Option Bytes
+  | .ok a => some a.toBytes
+  | _ => none
+/-- the model's archive for this set is, byte for byte, what the frozen reference encoder writes for
+    `(a, ""), (A_1, "AAAAA"), (b, "BBBB")` — in particular nothing of the LIST chunk behind `A_1`'s data (D8) -/
+example : bytesOf? (create (filesOf exSrcs)) =
+    some (Spec.encode (exFmt ++ [0, 0]) [([97], []), ([65, 95, 49], [65, 65, 65, 65, 65]), ([98], [66, 66, 66, 66])]) := by decide
+/-- refusal examples: a ninth name character; names equal ignoring case; a text file -/
+example : bytesOf? (create [([97, 98, 99, 100, 101, 102, 103, 104, 105, 46, 119], ⟨exWav.enc, 0⟩)]) = none := by decide
+example : bytesOf? (create [([97, 46, 119], ⟨exWav.enc, 0⟩), ([65, 46, 119, 97, 118], ⟨exWav.enc, 0⟩)]) = none := by decide
+example : bytesOf? (create [([97, 46, 119], ⟨[104, 101, 108, 108, 111, 32, 119, 111, 114, 108, 100, 33, 33, 33, 33, 33, 33, 33, 33, 33, 33], 0⟩)]) = none := by decide
+
 /-! ## bridging lemmas: facts regenerated from the current source are the model's -/
 
 theorem C03_gen_version : Gen.Constants.clm_fileVersion = Clm.version.map (·.toNat) := by decide
@@ -210,6 +328,12 @@ theorem C03_gen_index_layout :
 theorem C03_gen_wave_layout :
     Gen.Layout.size_RiffHeader = Wave.riffHeaderSize ∧ Gen.Layout.size_ChunkHeader = Wave.chunkHeaderSize ∧
     Gen.Layout.size_FormatChunk = 26 ∧ Gen.Layout.size_WaveHeader = 46 := by decide
+/-- `WaveFormatEx{tag, channels, rate, avgBytes, blockAlign, bits, cbSize}` as its 18 bytes -/
+def formatBytes : List Nat → Bytes
+  | [a, b, c, d, e, f, g] => encU16 a ++ encU16 b ++ encU32 c ++ encU32 d ++ encU16 e ++ encU16 f ++ encU16 g
+  | _ => []
+/-- `PrepareWaveFormat`'s default (PCM, mono, 22 050 Hz, 44 100 B/s, block 2, 16 bit, cbSize 0) as laid out in 18 bytes -/
+theorem C03_gen_default_format : formatBytes Gen.Constants.clm_defaultFormat = Clm.defaultFmt := by decide
 /-- the frozen description's header constants are the ones the library writes -/
 theorem C03_spec_constants : Spec.versionText = Clm.version ∧ Spec.unknownBytes = Clm.unknown := by decide
 
